@@ -27,9 +27,8 @@ def run(ctx):
     # 3. execute on the real code
     binary = ctx.go_build("c18")
     args = ["-plans", pdir, "-out", ctx.path("calls.ndjson"), "-seed", ctx.seed,
-            "-enum", ctx.q(3, 4), "-rand", ctx.q(400, 6000), "-maxlen", ctx.q(12, 24)]
-    if ctx.thorough:
-        args.append("-full")
+            "-enum", ctx.q(3, 4), "-enumfull", ctx.q(2, 3), "-rand", ctx.q(400, 6000),
+            "-maxlen", ctx.q(12, 24)]
     out = ctx.harness(binary, args)
     # 4. validate what the real code did
     calls = ctx.load_traces(ctx.path("calls.ndjson"))
@@ -58,8 +57,9 @@ def run(ctx):
     return ctx.finish(
         rule="one trace = one Transact call; plans = TLC simulation of Transact.tla (0..3 steps, 5 "
              "outcomes, 0..2 statements, 0..3 arguments, begin/commit/rollback faults; distinct by content) "
-             "+ exhaustive enumeration of all step lists up to length 3 (thorough 4) over 8 (14) step "
-             "variants with every fault placement that matters + seeded random lists up to 12 (24) steps; "
+             "+ exhaustive enumeration of all step lists up to length 3 (thorough 4) over 8 step variants "
+             "and up to length 2 (3) over all 14 variants, each with every fault placement that matters "
+             "+ seeded random lists up to 12 (24) steps; "
              "arguments are raw steps or (nested / empty) Combine groups",
         explanation="Transact.tla model-checked exhaustively; every driver event (begin, exec+in-tx flag, "
                     "commit, rollback), every step entry/exit and the returned error class of every real "
